@@ -363,6 +363,13 @@ func (w *World) findFunction(fs *FuncSpec) *ssa.Function {
 		if normName(f.RelString(sp.Pkg)) == want {
 			found = f
 		}
+		// "init@file.go": the init function declared in that file (go/ssa numbers them init#1.. in file order,
+		// which would change when an unrelated init is added)
+		if strings.HasPrefix(want, "init@") && strings.HasPrefix(f.Name(), "init#") && f.Pos().IsValid() {
+			if filepath.Base(w.fset.Position(f.Pos()).Filename) == strings.TrimPrefix(want, "init@") {
+				found = f
+			}
+		}
 		for _, a := range f.AnonFuncs {
 			visit(a)
 		}
